@@ -60,7 +60,8 @@ QUICK = dict(cases=3000, workers=2, timecap=25)
 THOROUGH = dict(cases=300000, workers=16, timecap=300)
 REQUIRED = {"registry": 7, "assign_scalar": 300, "assign_seq": 1200, "wronglen": 3000, "getter": 10000,
             "snapshot_members": 20000, "lookup_index": 500, "lookup_slice": 800, "lookup_name": 300, "invariant": 5000,
-            "hook_invariant": 5000, "foreign": 500, "observe_members": 50, "history_ops": 5000, "random_histories": 50}
+            "hook_invariant": 5000, "foreign": 500, "observe_members": 50, "history_ops": 5000, "random_histories": 50,
+            "alias_container": 200, "alias_values": 800, "alias_add": 100, "alias_getter": 800, "alias_two_groups": 60}
 
 CLASSES = ["SightLineGroup", "FibreOpticGroup", "PixelGroup", "TargettedPixelGroup",
            "SpectroscopicSightLineGroup", "SpectroscopicFibreOpticGroup", "BolometerCamera"]
@@ -415,6 +416,11 @@ def _gen_history(rng, cname, tier):
         else:
             ops.append({"op": "lookup", "slices": _gen_slices(rng, n, 2)})
     ops.append({"op": "lookup", "slices": _gen_slices(rng, len(members), 2)})
+    if rng.random() < 0.5:
+        ops.append({"op": "getter_alias"})
+    if rng.random() < 0.15:
+        vias = paths["set"] + ([] if cname == CAMERA else ["ctor"])
+        ops.append({"op": "two_groups", "via": vias[int(rng.integers(len(vias)))], "k": int(rng.integers(0, 4))})
     ops.append({"op": "read_all"})
     return {"kind": "history", "cls": cname, "in_world": in_world, "pool": pool, "init": _gen_init(rng, cname, n0), "ops": ops}
 
@@ -500,6 +506,32 @@ def fixed_cases(tier):
                        {"op": "read_all"}]
                 cases.append({"kind": "lookup", "cls": cname, "in_world": False, "pool": pool,
                               "init": {"via": via, "n0": n}, "ops": ops})
+    # aliasing: every container entry point with a caller-owned list, then add_*, lookups, getter-result mutation
+    for cname in CLASSES:
+        paths = _member_paths(cname)
+        for n in (0, 2, 4):
+            rng = np.random.default_rng([15, 33, zlib.crc32(cname.encode()), n])
+            pool = [_gen_member(rng, cname, i) for i in range(n + 2)]
+            for i, p in enumerate(pool):
+                p["name"] = "al%d" % i
+                if p.get("mtype") == "BolometerIRVB":
+                    p["mtype"] = "BolometerFoil"
+            inits = ["set_list", "add"] if cname == CAMERA else ["ctor_list", "set_list", "add"]
+            for via0 in inits:
+                for via in paths["set"]:
+                    ops = [{"op": "lookup", "slices": [[None, None, None]]},
+                           {"op": "add", "m": n, "via": paths["add"][-1]},
+                           {"op": "set_members", "ms": list(range(n + 1))[::-1], "via": via, "kind": "list"},
+                           {"op": "lookup", "slices": [[None, None, None]]},
+                           {"op": "add", "m": n + 1, "via": paths["add"][0]},
+                           {"op": "lookup", "slices": [[None, None, -1]]},
+                           {"op": "getter_alias"}, {"op": "read_all"}]
+                    cases.append({"kind": "alias", "cls": cname, "in_world": False, "pool": pool,
+                                  "init": {"via": via0, "n0": n}, "ops": ops})
+        for via in paths["set"] + ([] if cname == CAMERA else ["ctor"]):
+            for k in (0, 1, 3):
+                cases.append({"kind": "alias", "cls": cname, "in_world": False, "pool": [], "init": {"via": "add", "n0": 0},
+                              "ops": [{"op": "two_groups", "via": via, "k": k}]})
     # foreign types through every membership path
     for cname in CLASSES:
         paths = _member_paths(cname)
@@ -554,6 +586,7 @@ class Env:
         self.pool = {}
         self.slits = {}
         self.geom_margin = 0.0
+        self.caller_lists = []             # (entry, list object) recently handed to container entry points
 
     # -- object pools -------------------------------------------------------------------------
     def engine(self, i):
@@ -932,6 +965,7 @@ def op_assign(env, ctx, op):
         ctx.nontrivial()
     check_getter(env, ctx, attr)
     check_invariant(env, ctx, attr + "=")
+    check_value_alias(env, ctx, attr, kind, value, after)
 
 
 def op_wronglen(env, ctx, op):
@@ -1212,16 +1246,301 @@ def op_registry(env, ctx):
 
 
 # ----------------------------------------------------------------------------------------------
+# aliasing monitor: the group must not share mutable containers with its caller
+# ----------------------------------------------------------------------------------------------
+
+def group_state(env, g=None):
+    """Everything the property lets a user observe of a group: members (identity, order), len, each member's parent,
+    name lookup for every unique name, every broadcast getter, and the whole public state of every member."""
+    g = env.group if g is None else g
+    cam = hasattr(type(g), "foil_detectors")
+    st = {}
+    try:
+        mem = list(g.foil_detectors) if cam else list(g.observers)
+    except Exception as e:  # noqa
+        return {"members": ("raises", type(e).__name__)}
+    env.keep.extend(mem)
+    st["members"] = tuple(id(m) for m in mem)
+    try:
+        st["len"] = len(g)
+    except Exception as e:  # noqa
+        st["len"] = ("raises", type(e).__name__)
+    parents = []
+    for m in mem:
+        par = getattr(m, "parent", None)
+        env.keep.append(par)
+        parents.append(id(par))
+    st["parents"] = tuple(parents)
+    names = [getattr(m, "name", None) for m in mem]
+    look = []
+    for nm in names:
+        if isinstance(nm, str) and names.count(nm) == 1:
+            try:
+                r = g[nm]
+                env.keep.append(r)
+                look.append((nm, id(r)))
+            except Exception as e:  # noqa
+                look.append((nm, "raises", type(e).__name__))
+    st["name_lookup"] = tuple(look)
+    for a, prop in sorted(_props(type(g).__name__).items()):
+        if prop.fget is None:
+            continue
+        try:
+            st["get:" + a] = _canon(getattr(g, a), env)
+        except Exception as e:  # noqa
+            st["get:" + a] = ("raises", type(e).__name__)
+    for i, m in enumerate(mem):
+        try:
+            st["member%d" % i] = tuple(sorted(snap_member(m, env).items()))
+        except Exception as e:  # noqa
+            st["member%d" % i] = ("raises", type(e).__name__)
+    return st
+
+
+def _state_diff(a, b):
+    return [k for k in sorted(set(a) | set(b)) if a.get(k) != b.get(k)]
+
+
+def fresh_member(env):
+    """A brand-new valid member for env's group class (never added to anything)."""
+    S = env.S
+    cn = env.cname
+    env.n_fresh = getattr(env, "n_fresh", 0) + 1
+    nm = "fresh%d" % env.n_fresh
+    if cn == CAMERA:
+        m = S["BolometerFoil"](nm, S["Point3D"](0.001 * env.n_fresh, 0, -0.05), S["Vector3D"](1, 0, 0), 0.002,
+                               S["Vector3D"](0, 1, 0), 0.002, env.slit(0))
+    else:
+        mt = MEMBER_TYPE[cn]
+        if mt.startswith("Spectroscopic"):
+            m = S[mt](name=nm)
+        elif mt == "TargettedPixel":
+            m = S[mt](targets=[env.prim(0)], pipelines=[env.pipeline("power")], name=nm)
+        else:
+            m = S[mt](pipelines=[env.pipeline("power")], name=nm)
+    env.keep.append(m)
+    return m
+
+
+def mutate_caller_list(env, L, step):
+    """In-place edits of a caller-owned member list: append a foreign object and a valid observer / overwrite, reorder, pop."""
+    if step == 0:
+        L.append(env.S["Sphere"](0.01))
+        L.append(fresh_member(env))
+    else:
+        L[0] = fresh_member(env)
+        L.reverse()
+        L.pop()
+        L.insert(0, fresh_member(env))
+
+
+def check_container_alias(env, ctx, entry, L, g=None):
+    """After `entry` received the caller-owned list L: mutating L must leave the group exactly as it was."""
+    g = env.group if g is None else g
+    cn = env.cname
+    ctx.mon("alias_container")
+    s0 = group_state(env, g)
+    for step in (0, 1):
+        mutate_caller_list(env, L, step)
+        s1 = group_state(env, g)
+        d = _state_diff(s0, s1)
+        if d:
+            ctx.viol("aliasing:%s.%s:group-changed-after-caller-mutated-its-list" % (cn, entry),
+                     "after %s.%s received a caller-owned list, editing that list in place (%s) changed the group: %s" % (
+                         cn, entry, "append foreign + valid observer" if step == 0 else "overwrite/reverse/pop/insert", d[:8]),
+                     members_before=len(s0.get("members", ())), members_after=len(s1.get("members", ())) if isinstance(s1.get("members"), tuple) else None)
+            break
+    ctx.nontrivial()
+    env.caller_lists.append((entry, L))
+    del env.caller_lists[:-3]
+
+
+def check_add_keeps_caller_lists(env, ctx, via, call):
+    """Run the add-style mutator `call`; lists the caller handed to earlier entry points must not change."""
+    cn = env.cname
+    before = [(entry, L, list(L)) for entry, L in env.caller_lists]
+    call()
+    for entry, L, was in before:
+        ctx.mon("alias_add")
+        if len(L) != len(was) or any(a is not b for a, b in zip(L, was)):
+            ctx.viol("aliasing:%s.%s:caller-list-changed-by-%s" % (cn, entry, via),
+                     "%s.%s() changed the list object the caller had earlier passed to %s (length %d -> %d)" % (
+                         cn, via, entry, len(was), len(L)))
+
+
+def _alt_value(env, attr, v):
+    """A different valid element for the caller to overwrite its own container with."""
+    t = ATTRS[attr]
+    ty = t["type"]
+    if ty == "int":
+        return t["lo"] if v != t["lo"] else t["lo"] + 1
+    if ty == "float":
+        mid = 0.5 * (t["lo"] + t["hi"])
+        return mid if v != mid else 0.75 * t["lo"] + 0.25 * t["hi"]
+    if ty == "bool":
+        return not v
+    if ty == "str":
+        return "aliased"
+    if ty == "engine":
+        return env.S["SerialEngine"]()
+    if ty == "prims":
+        return [env.prim(4), env.prim(3)]
+    if ty == "pipes":
+        return [env.pipeline("radiance")]
+    if ty == "point":
+        return env.S["Point3D"](0.5, -0.25, 0.125)
+    if ty == "vector":
+        return env.S["Vector3D"](1.0, 1.0, 0.5)
+    raise ValueError(ty)
+
+
+def check_value_alias(env, ctx, attr, kind, value, after):
+    """The caller edits, in place, the list / ndarray (and nested lists) it has just assigned to group.<attr>:
+    members and the getter must keep the values they had right after the assignment."""
+    cn = env.cname
+    if not isinstance(value, (list, np.ndarray)):
+        ctx.skip("aliasing of an immutable value (tuple / scalar): nothing the caller could mutate")
+        return
+    ctx.mon("alias_values")
+    try:
+        g0 = _canon(getattr(env.group, attr), env)
+    except Exception as e:  # noqa
+        g0 = ("raises", type(e).__name__)
+    ty = ATTRS[attr]["type"]
+    if isinstance(value, np.ndarray):
+        what = "ndarray"
+        if value.size:
+            value[:] = value[::-1].copy()
+            value[0] = _alt_value(env, attr, value[0].item())
+    else:
+        what = "list"
+        for inner in value:
+            if isinstance(inner, list) and inner:          # nested per-member lists (pipelines, targets)
+                inner.reverse()
+                inner.append(inner[0])
+                inner[0] = _alt_value(env, attr, None)[0]
+        flat = ty == "prims" and kind == "scalar"
+        if value:
+            value.reverse()
+            value[0] = _alt_value(env, attr, value[0])[0] if flat else _alt_value(env, attr, value[0])
+            value.append(value[0])
+        else:
+            value.append(_alt_value(env, attr, None)[0] if flat else _alt_value(env, attr, None))
+    now = snap_all(env, ctx)
+    bad = None
+    for j, (b, a) in enumerate(zip(after, now)):
+        d = _diff(b, a)
+        if d:
+            bad = "member %d attributes %s" % (j, d)
+            break
+    if bad is None:
+        try:
+            g1 = _canon(getattr(env.group, attr), env)
+        except Exception as e:  # noqa
+            g1 = ("raises", type(e).__name__)
+        if g1 != g0:
+            bad = "the value read back from group.%s" % attr
+    if bad:
+        ctx.viol("aliasing:%s.%s:values-changed-after-caller-mutated-its-%s" % (cn, attr, what),
+                 "after group.%s = <caller-owned %s>, editing that %s in place changed %s" % (attr, what, what, bad))
+    if env.members:
+        ctx.nontrivial()
+
+
+def _mutate_result(obj, depth=0):
+    """In-place edits of a container a getter handed out. Returns True if anything mutable was found."""
+    hit = False
+    if isinstance(obj, list):
+        for e in list(obj):
+            hit = _mutate_result(e, depth + 1) or hit
+        obj.append(object())
+        obj.reverse()
+        del obj[1:]
+        hit = True
+    elif isinstance(obj, tuple) and depth < 2:
+        for e in obj:
+            if isinstance(e, (list, tuple, dict, np.ndarray)):
+                hit = _mutate_result(e, depth + 1) or hit
+    elif isinstance(obj, dict):
+        obj["aliased"] = 1
+        hit = True
+    elif isinstance(obj, np.ndarray) and obj.size and obj.dtype != object:
+        obj[...] = obj.ravel()[0] * 0 + 1
+        hit = True
+    return hit
+
+
+def op_getter_alias(env, ctx, op):
+    """Mutate every container a group getter (and slice lookup) returns: the group must be unaffected."""
+    cn = env.cname
+    g = env.group
+    s0 = group_state(env)
+    targets = [(a, lambda a=a: getattr(g, a)) for a, pr in sorted(_props(cn).items()) if pr.fget is not None]
+    targets.append(("__getitem__[slice]", lambda: g[0:len(env.members) + 1]))
+    for a, read in targets:
+        try:
+            got = read()
+        except Exception:  # noqa - judged elsewhere (getter / lookup monitors)
+            continue
+        if not _mutate_result(got):
+            ctx.skip("getter returns an immutable container")
+            continue
+        ctx.mon("alias_getter")
+        s1 = group_state(env)
+        d = _state_diff(s0, s1)
+        if d:
+            ctx.viol("aliasing:%s.%s:group-changed-after-getter-result-mutated" % (cn, a),
+                     "editing the container returned by group.%s in place changed the group: %s" % (a, d[:8]))
+            s0 = s1
+    if env.members:
+        ctx.nontrivial()
+    check_invariant(env, ctx, "getter-result-mutation")
+
+
+def op_two_groups(env, ctx, op):
+    """The same caller-owned list handed to two groups; an add on one must not change the other (and vice versa)."""
+    cn = env.cname
+    entry = op["via"]
+    drain_hook(env, ctx)
+    L = [fresh_member(env) for _ in range(op["k"])]
+    add = _member_paths(cn)["add"][0]
+    groups = []
+    for _ in range(2):
+        if entry == "ctor":
+            gi = env.G(observers=L)
+        else:
+            gi = env.G()
+            setattr(gi, entry, L)
+        groups.append(gi)
+    env.keep.extend(groups)
+    for i in (0, 1):
+        other = groups[1 - i]
+        ctx.mon("alias_two_groups")
+        s0 = group_state(env, other)
+        getattr(groups[i], add)(fresh_member(env))
+        s1 = group_state(env, other)
+        d = [k for k in _state_diff(s0, s1) if k in ("members", "len", "name_lookup") or k.startswith("get:")]
+        if d:
+            ctx.viol("aliasing:%s.%s:shared-list-couples-two-groups" % (cn, entry),
+                     "two groups were given the same list through %s; %s() on one changed the other: %s" % (entry, add, d[:6]))
+            break
+    # this op deliberately lets two groups hold the same observers (the second assignment re-parents them), which is
+    # outside the single-group domain of the parent invariant: hook reports raised *during this op* are discarded
+    env.S["pending"].clear()
+    ctx.nontrivial()
+
+
+# ----------------------------------------------------------------------------------------------
 # membership ops
 # ----------------------------------------------------------------------------------------------
 
 def build_group(env, ctx):
     case = env.case
-    S = env.S
     cn = env.cname
     init = case["init"]
     n0 = init["n0"]
     via = init["via"]
+    caller = None                   # (entry, caller-owned list) when a list was handed over
     if cn == CAMERA:
         env.group = env.G(parent=env.world, name="cam")
         first = [env.member(i) for i in range(n0)]
@@ -1229,11 +1548,13 @@ def build_group(env, ctx):
             for m in first:
                 env.group.add_foil_detector(m)
         else:
-            env.group.foil_detectors = list(first)
+            caller = ("foil_detectors", list(first))
+            env.group.foil_detectors = caller[1]
     else:
         first = [env.member(i) for i in range(n0)]
         if via == "ctor_list":
-            env.group = env.G(parent=env.world, name="grp", observers=list(first))
+            caller = ("ctor", list(first))
+            env.group = env.G(parent=env.world, name="grp", observers=caller[1])
         elif via == "ctor_tuple":
             env.group = env.G(parent=env.world, name="grp", observers=tuple(first))
         else:
@@ -1242,18 +1563,22 @@ def build_group(env, ctx):
                 for m in first:
                     env.group.add_observer(m)
             elif via == "set_list":
-                env.group.observers = list(first)
+                caller = ("observers", list(first))
+                env.group.observers = caller[1]
             elif via == "set_tuple":
                 env.group.observers = tuple(first)
             else:
                 raise ValueError(via)
     env.members = list(first)
     check_invariant(env, ctx, "init-" + via)
+    if caller is not None:
+        check_container_alias(env, ctx, caller[0], caller[1])
+        check_invariant(env, ctx, "init-" + via + "+caller-edits-its-list")
 
 
 def op_add(env, ctx, op):
     m = env.member(op["m"])
-    getattr(env.group, op["via"])(m)
+    check_add_keeps_caller_lists(env, ctx, op["via"], lambda: getattr(env.group, op["via"])(m))
     env.members.append(m)
     check_invariant(env, ctx, op["via"])
 
@@ -1264,6 +1589,9 @@ def op_set_members(env, ctx, op):
     setattr(env.group, op["via"], val)
     env.members = list(ms)
     check_invariant(env, ctx, op["via"] + "=")
+    if isinstance(val, list):
+        check_container_alias(env, ctx, op["via"], val)
+        check_invariant(env, ctx, op["via"] + "=+caller-edits-its-list")
 
 
 def op_connect(env, ctx, op):
@@ -1317,6 +1645,10 @@ def run_case(case, ctx):
             op_connect(env, ctx, op)
         elif o == "foreign":
             op_foreign(env, ctx, op)
+        elif o == "getter_alias":
+            op_getter_alias(env, ctx, op)
+        elif o == "two_groups":
+            op_two_groups(env, ctx, op)
         elif o == "observe":
             if env.world is not None:
                 op_observe(env, ctx, op)
